@@ -58,7 +58,8 @@ pub fn gen(seed: u64, tier: Tier) -> ScenarioSpec {
     if live {
         spec.api = Api::Incremental;
         if rng.chance(1, 2) {
-            spec.live = Some(gen_live(&mut rng, len, 0));
+            spec.live = Some(gen_live(&mut rng, len, 15));
+            spec.knobs.insert("resume".into(), 1);
         }
     }
     spec
